@@ -288,3 +288,14 @@ func Tokens(s string) []RTok {
 	}
 	return out
 }
+
+// Decimal gives a decimal spelling of the value.
+func (a *Number) Decimal() string {
+	if a.Exp.Sign() == 0 {
+		return a.Digits
+	}
+	if a.Exp.IsInt64() && a.Exp.Int64() > 0 && a.Exp.Int64() <= 30 {
+		return a.Digits + strings.Repeat("0", int(a.Exp.Int64()))
+	}
+	return a.Digits + "e" + a.Exp.String()
+}
